@@ -237,6 +237,14 @@ def step (_ : Unit) (line : String) : Unit × String :=
           match parseValAll ty rest with
           | some v => (match saveE ty v with | some bs => toHex bs | none => "throw")
           | none => "bad-op"
+        else if op == "cmp" then
+          -- `operator<` of two values of a key type
+          if !Spec.keyable ty then "bad-op" else
+          match parseVal true ty rest with
+          | some (a, r1) => (match parseVal true ty r1 with
+            | some (b, []) => boolStr (lt ty a b)
+            | _ => "bad-op")
+          | none => "bad-op"
         else if op == "zsv" then
           -- session store_data, save(), next request load(), fetch_data: C06's `save_data` refuses values of
           -- `Gen.dataLimit` (2 MiB) bytes and more; otherwise the bytes come back (C06 `loadData_saveData`)
